@@ -59,13 +59,21 @@ func constString(v ssa.Value) (string, bool) {
 	return constant.StringVal(c.Value), true
 }
 
-// chainFromParam: v is computed from `from` only through identity-on-lower-case-ASCII-name functions.
+// nameChain: v is computed from a base value only through functions that are the identity on lower-case ASCII names
+// and never turn a name that is not ASCII-case-insensitively equal to a keyword into that keyword: trimming / slicing
+// the quote marks, strconv.QuoteToASCII, and strings.ToLower applied to an ASCII-only string — i.e. to (an image of) a
+// QuoteToASCII result.  ToLower applied to the raw name folds non-ASCII letters whose lower case is ASCII (U+0130 İ → i,
+// U+212A K → k) into ASCII names: "scrİpt" would be judged as "script".
 func nameChain(v ssa.Value, isBase func(ssa.Value) bool, res func(ssa.Value) ssa.Value, depth int) bool {
+	return nameChainA(v, isBase, res, depth, false)
+}
+
+func nameChainA(v ssa.Value, isBase func(ssa.Value) bool, res func(ssa.Value) ssa.Value, depth int, needASCII bool) bool {
 	if res != nil {
 		v = res(v)
 	}
 	if isBase(v) {
-		return true
+		return !needASCII
 	}
 	if depth > 6 {
 		return false
@@ -79,7 +87,7 @@ func nameChain(v ssa.Value, isBase func(ssa.Value) bool, res func(ssa.Value) ssa
 					q = tl.Common().Args[0]
 				}
 				if isCallTo(q, "strconv.QuoteToASCII") != nil {
-					return nameChain(sl.X, isBase, res, depth+1)
+					return nameChainA(sl.X, isBase, res, depth+1, needASCII)
 				}
 			}
 		}
@@ -95,18 +103,20 @@ func nameChain(v ssa.Value, isBase func(ssa.Value) bool, res func(ssa.Value) ssa
 	}
 	args := c.Common().Args
 	switch pa.CalleeName(fn) {
-	case "strings.ToLower", "strconv.QuoteToASCII":
-		return len(args) == 1 && nameChain(args[0], isBase, res, depth+1)
+	case "strings.ToLower":
+		return len(args) == 1 && nameChainA(args[0], isBase, res, depth+1, true)
+	case "strconv.QuoteToASCII":
+		return len(args) == 1 && nameChainA(args[0], isBase, res, depth+1, false)
 	case "strings.TrimPrefix", "strings.TrimSuffix":
 		if k, ok := constString(args[1]); ok && k == `"` {
-			return nameChain(args[0], isBase, res, depth+1)
+			return nameChainA(args[0], isBase, res, depth+1, needASCII)
 		}
 		return false
 	}
 	// a module function whose result is a name chain of its single string parameter
 	if fn.Pkg != nil && strings.HasPrefix(fn.Pkg.Pkg.Path(), load.ModPath) && len(fn.Params) == 1 && len(args) == 1 {
 		if namePreserving(fn) {
-			return nameChain(args[0], isBase, res, depth+1)
+			return nameChainA(args[0], isBase, res, depth+1, needASCII)
 		}
 	}
 	return false
